@@ -108,6 +108,14 @@ def gen_int(rng, width):
 
 
 def gen_decimal(rng, width):
+    if width >= 32 and rng.random() < 0.7:
+        # many significant digits (beyond the default 28-digit decimal context)
+        nd = rng.randint(29, width - 2)
+        digits = str(rng.randint(1, 9)) + "".join(rng.choice("0123456789") for _ in range(nd - 2)) + str(rng.randint(1, 9))
+        if rng.random() < 0.5:
+            k = rng.randint(1, nd - 1)
+            return decimal.Decimal(digits[:k] + "." + digits[k:])
+        return decimal.Decimal(digits)
     frac = rng.randint(0, min(3, width - 2))
     ip = rng.randint(0, 10 ** max(1, width - frac - 2) - 1)
     if frac:
@@ -219,7 +227,8 @@ def gen_config(rng):
                 c = {"field_name": f"f{b}", "field_type": "FIXED", "field_length": width,
                      "field_python_type": "datetime", "field_date_format": fmt}
             else:
-                c = {"field_name": f"f{b}", "field_type": "FIXED", "field_length": rng.randint(6, 14),
+                c = {"field_name": f"f{b}", "field_type": "FIXED",
+                     "field_length": rng.choice([rng.randint(6, 14), rng.randint(6, 14), 32, 35, 40]),
                      "field_python_type": "decimal"}
         elif r < 0.72:
             c = {"field_name": f"f{b}", "field_type": "LLVAR", "field_length": 0}
@@ -325,11 +334,17 @@ def gen_message(rng, cfg, enc, max_record):
     return msg
 
 
+ALIASES = {"latin_1": ["latin1", "iso-8859-1", "L1", "ISO8859-1"], "cp500": ["CP500", "ibm500", "EBCDIC-CP-BE"],
+           "cp037": ["IBM037", "ibm039", "CP037"], "ascii": ["us-ascii", "ASCII", "646"]}
+
+
 def gen_file_messages(st, nmax=12, max_record=6000):
     """(encoding, config-json, [message-json]) for one IPM file; st is a kernel.Streams"""
     kn = st["knobs"]
     wl = st["workload"]
     enc = kn.choices(CODECS, CODEC_WEIGHTS)[0]
+    if enc in ALIASES and kn.random() < 0.25:
+        enc = kn.choice(ALIASES[enc])      # the same codec under another registered name
     if kn.random() < 0.6:
         cfgj = "packaged"
     else:
